@@ -22,7 +22,7 @@ const cacheFarExpiry = 6 * time.Hour
 
 type cacheModel struct {
 	limit int
-	data  map[string]any
+	data  map[string]cval
 	order []string          // most recently used first (limit > 0 only)
 	gone  map[string]string // why a key is absent: deleted | evicted
 	// statistics
@@ -32,7 +32,7 @@ type cacheModel struct {
 }
 
 func newCacheModel(limit int) *cacheModel {
-	return &cacheModel{limit: limit, data: map[string]any{}, gone: map[string]string{}, insertSeq: map[string]int{}}
+	return &cacheModel{limit: limit, data: map[string]cval{}, gone: map[string]string{}, insertSeq: map[string]int{}}
 }
 
 func (m *cacheModel) touch(k string) {
@@ -49,7 +49,7 @@ func (m *cacheModel) touch(k string) {
 	m.order = append([]string{k}, m.order...)
 }
 
-func (m *cacheModel) get(k string) (any, bool) {
+func (m *cacheModel) get(k string) (cval, bool) {
 	v, ok := m.data[k]
 	if ok {
 		m.touch(k)
@@ -57,7 +57,7 @@ func (m *cacheModel) get(k string) (any, bool) {
 	return v, ok
 }
 
-func (m *cacheModel) set(k string, v any) (evicted string) {
+func (m *cacheModel) set(k string, v cval) (evicted string) {
 	if _, ok := m.data[k]; !ok {
 		m.seq++
 		m.insertSeq[k] = m.seq
@@ -114,6 +114,9 @@ type cacheRun struct {
 	keys  []string
 	nextV int
 	bad   bool
+	r     *kit.Rand // source of the value kinds (nil: plain integers, every 17th value nil)
+	last  *cval     // the value stored most recently under any key
+	vs    valStats
 	// stats
 	takeHits, takeLoads, takeFails, gets int64
 }
@@ -139,25 +142,54 @@ func (cr *cacheRun) get(k string) bool {
 	case wantOK && !gotOK:
 		cr.viol("C16/cache/get/live-key-missing", fmt.Sprintf("Get(%s) missed; the key was set to %v and was neither deleted nor due for LRU eviction (limit %d)", k, wantV, cr.m.limit))
 	case !wantOK && gotOK:
-		cr.viol("C16/cache/get/dead-key-present/"+cr.m.why(k), fmt.Sprintf("Get(%s) returned %v although the key is %s", k, gotV, cr.m.why(k)))
-	case wantOK && gotV != wantV:
-		cr.viol("C16/cache/get/not-latest-value", fmt.Sprintf("Get(%s) returned %v, latest value set is %v", k, gotV, wantV))
+		cr.viol("C16/cache/get/dead-key-present/"+cr.m.why(k), fmt.Sprintf("Get(%s) returned %s although the key is %s", k, descr(gotV), cr.m.why(k)))
+	case wantOK && !sameVal(gotV, wantV.v):
+		cr.viol("C16/cache/get/not-latest-value"+valClassSuffix(wantV), fmt.Sprintf("Get(%s) returned %s, latest value set is %v (reference kinds are compared by identity)", k, descr(gotV), wantV))
+	}
+	if wantOK {
+		cr.vs.compared(wantV.v)
 	}
 	return gotOK
 }
 
-func (cr *cacheRun) set(k string, withExpire bool) {
-	cr.nextV++
-	var v any = cr.nextV
-	if cr.nextV%17 == 0 {
-		v = nil // a nil value is a value
+// valClassSuffix keeps the established keys for plain comparable scalars and names the class of the value otherwise.
+func valClassSuffix(v cval) string {
+	if v.class == clScalar || v.class == clNil {
+		return ""
 	}
+	return "/value-kind=" + v.class
+}
+
+// newVal draws the next value to store under k: a fresh one of some kind, the same value the key (or the
+// key written before) holds, or a value equal but not identical to it.
+func (cr *cacheRun) newVal(k string) cval {
+	cr.nextV++
+	var v cval
+	if cr.r == nil {
+		v = mkFresh("int", cr.nextV)
+		if cr.nextV%17 == 0 {
+			v = mkFresh("nil", cr.nextV) // a nil value is a value
+		}
+	} else {
+		prev := cr.last
+		if cur, ok := cr.m.data[k]; ok && cr.r.Chance(0.7) {
+			prev = &cur
+		}
+		v = mkVal(cr.r, cr.nextV, prev)
+	}
+	cr.vs.note(v)
+	cr.last = &v
+	return v
+}
+
+func (cr *cacheRun) set(k string, withExpire bool) {
+	v := cr.newVal(k)
 	if withExpire {
 		cr.rec.opf("SetWithExpire(%s,%v,%v)", k, v, cacheFarExpiry+time.Hour)
-		cr.cache.SetWithExpire(k, v, cacheFarExpiry+time.Hour)
+		cr.cache.SetWithExpire(k, v.v, cacheFarExpiry+time.Hour)
 	} else {
 		cr.rec.opf("Set(%s,%v)", k, v)
-		cr.cache.Set(k, v)
+		cr.cache.Set(k, v.v)
 	}
 	cr.m.set(k, v)
 }
@@ -171,16 +203,15 @@ func (cr *cacheRun) del(k string) {
 var errLoad = errors.New("c16: loader failed")
 
 func (cr *cacheRun) take(k string, fail bool) {
-	cr.nextV++
-	loadV := cr.nextV
-	cr.rec.opf("Take(%s, loader=>%s)", k, map[bool]string{false: fmt.Sprint(loadV), true: "error"}[fail])
+	loadV := cr.newVal(k)
+	cr.rec.opf("Take(%s, loader=>%s)", k, map[bool]string{false: loadV.String(), true: "error"}[fail])
 	calls := 0
 	gotV, gotErr := cr.cache.Take(k, func() (any, error) {
 		calls++
 		if fail {
 			return nil, errLoad
 		}
-		return loadV, nil
+		return loadV.v, nil
 	})
 	wantV, hit := cr.m.get(k)
 	switch {
@@ -191,27 +222,29 @@ func (cr *cacheRun) take(k string, fail bool) {
 			cr.viol("C16/cache/take/loader-called-on-hit", fmt.Sprintf("Take(%s) called the loader %d time(s) although the key is cached with %v", k, calls, wantV))
 		case gotErr != nil:
 			cr.viol("C16/cache/take/error-on-hit", fmt.Sprintf("Take(%s) returned error %v on a cached key", k, gotErr))
-		case gotV != wantV:
-			cr.viol("C16/cache/take/not-latest-value", fmt.Sprintf("Take(%s) returned %v, latest value set is %v", k, gotV, wantV))
+		case !sameVal(gotV, wantV.v):
+			cr.viol("C16/cache/take/not-latest-value"+valClassSuffix(wantV), fmt.Sprintf("Take(%s) returned %s, latest value set is %v (reference kinds are compared by identity)", k, descr(gotV), wantV))
 		}
+		cr.vs.compared(wantV.v)
 	case calls != 1:
 		cr.viol("C16/cache/take/loader-calls-on-miss", fmt.Sprintf("Take(%s) on a %s key called the loader %d times, want exactly once", k, cr.m.why(k), calls))
 	case fail:
 		cr.takeFails++
 		if gotErr == nil {
-			cr.viol("C16/cache/take/load-error-swallowed", fmt.Sprintf("Take(%s): the loader failed but Take returned (%v, nil)", k, gotV))
+			cr.viol("C16/cache/take/load-error-swallowed", fmt.Sprintf("Take(%s): the loader failed but Take returned (%s, nil)", k, descr(gotV)))
 		}
 		// nothing may have been cached (on a correct cache this Get misses and changes nothing)
 		if !cr.bad {
 			if v, ok := cr.cache.Get(k); ok {
-				cr.viol("C16/cache/take/failed-load-cached", fmt.Sprintf("Take(%s): the loader failed, yet the key is cached afterwards with %v", k, v))
+				cr.viol("C16/cache/take/failed-load-cached", fmt.Sprintf("Take(%s): the loader failed, yet the key is cached afterwards with %s", k, descr(v)))
 			}
 		}
 	default:
 		cr.takeLoads++
-		if gotErr != nil || gotV != any(loadV) {
-			cr.viol("C16/cache/take/wrong-result-after-load", fmt.Sprintf("Take(%s): loader returned %d, Take returned (%v, %v)", k, loadV, gotV, gotErr))
+		if gotErr != nil || !sameVal(gotV, loadV.v) {
+			cr.viol("C16/cache/take/wrong-result-after-load"+valClassSuffix(loadV), fmt.Sprintf("Take(%s): loader returned %v, Take returned (%s, %v)", k, loadV, descr(gotV), gotErr))
 		}
+		cr.vs.compared(loadV.v)
 		cr.m.set(k, loadV)
 	}
 }
@@ -254,7 +287,7 @@ func cacheHistory(c *kit.Case, r *kit.Rand, sample bool) {
 		c.Viol("C16/cache/new-error", err.Error(), map[string]any{"limit": limit})
 		return
 	}
-	cr := &cacheRun{c: c, m: newCacheModel(limit), cache: cache, rec: newRec(400)}
+	cr := &cacheRun{c: c, m: newCacheModel(limit), cache: cache, rec: newRec(400), r: r}
 	for i := 0; i < nkeys; i++ {
 		cr.keys = append(cr.keys, fmt.Sprintf("k%d", i))
 	}
@@ -292,6 +325,7 @@ func cacheHistory(c *kit.Case, r *kit.Rand, sample bool) {
 	c.Obs("cache_take_misses_loaded", cr.takeLoads)
 	c.Obs("cache_take_misses_loader_failed", cr.takeFails)
 	c.Obs("cache_gets_compared", cr.gets)
+	cr.vs.obs(c, "cache")
 	// non-trivial: the LRU victim of some eviction differed from the insertion-order victim, or (no limit) a
 	// failed load was followed by further operations
 	nontrivial := cr.m.recencyMattered > 0 || (limit == 0 && cr.takeFails > 0 && cr.takeHits > 0)
